@@ -7,7 +7,7 @@ the subject."""
 from lbry.wallet.util import ArithUint256
 from lbry.wallet.header import Headers, InvalidHeader
 
-LEVEL_TEXT = ('Bounded model checking of the real header code in five parts: (i) compact target encoding against Bitcoin\'s '
+LEVEL_TEXT = ('Bounded model checking of the real header code, parts (i), (ii) and (v) of five planned (batch validation/connect and checkpointed chunks are not built yet): (i) compact target encoding against Bitcoin\'s '
               'arith_uint256 for every value below 2^256 (one symbolic value per bit length) and every 32-bit compact; '
               '(ii) the retarget rule, with the float division modelled exactly, against lbrycrd\'s integer rule for every '
               'valid compact target of the size bytes in range and every pair of 32-bit timestamps; (iii) header and batch '
@@ -134,6 +134,222 @@ def retarget_edges(vm):
     return 'ok'
 
 
+# ------------------------------------------------------------------------------------------------ (v) reopen / repair
+ENV = [None]
+
+
+class Ready:
+    """Awaitable that is already complete (run_in_executor of the model loop)."""
+
+    def __init__(self, v):
+        self.v = v
+
+    def __vm_await__(self, vm):
+        return self.v
+
+    def __await__(self):
+        return self.v
+        yield
+
+
+class LoopModel:
+    def run_in_executor(self, executor, fn):
+        return Ready(fn())
+
+
+class FileModel:
+    def __init__(self, content):
+        self.content = content
+
+    def __enter__(self):
+        return self
+
+    def __exit__(self, *a):
+        return False
+
+    def read(self):
+        return self.content
+
+
+class HashTok:
+    """hash_header(header i) in the symbolic runs: an abstract value; only its equalities matter."""
+
+    def __init__(self, i):
+        self.i = i
+
+    def __symeq__(self, other, vm):
+        if isinstance(other, HashTok):
+            return self.i == other.i
+        if isinstance(other, PrevTok):
+            return other.__symeq__(self, vm)
+        if isinstance(other, bytes):                      # compared with the built-in genesis hash
+            return vm.named_bool('genesis_ok') if self.i == 0 else False
+        return False
+
+
+class PrevTok:
+    """prev_block_hash field of header i."""
+
+    def __init__(self, i):
+        self.i = i
+
+    def __symeq__(self, other, vm):
+        if isinstance(other, HashTok):
+            if other.i == self.i - 1:
+                return vm.named_bool('link%d' % self.i)
+            return False                                   # never equals the hash of a non-predecessor (ideal hash)
+        return isinstance(other, PrevTok) and other.i == self.i
+
+
+class RepairHeaders(Headers):
+    """Real Headers with the two checkpoint-download steps of open() switched off (they need the network)."""
+    checkpoints = {}
+    validate_difficulty = False
+
+    async def ensure_checkpointed_size(self):
+        return None
+
+    async def get_all_missing_headers(self):
+        return None
+
+
+def reopen(vm, n, start, cut):
+    """A stored file of n headers (+ `cut` stray bytes of a torn write), link(i) symbolic per header: open() must load a
+    valid prefix and drop at most the headers from one before the first damaged one."""
+    env = ENV[0]
+    h = env.make(vm, n, start, cut)
+    try:
+        vm.await_(h.open())
+    except Exception as e:
+        return 'VIOLATION: open() raised %s on a damaged header file' % type(e).__name__
+    loaded = len(h)
+    first = start if (cut or start == 0) else start          # repair(0) after a torn write, else repair(start)
+    if cut:
+        first = 0
+    first_bad = None
+    if first == 0 and n > 0 and not env.genesis_ok(vm):
+        first_bad = 0
+    if first_bad is None:
+        for i in range(first + 1, n):
+            if not env.link(vm, i):
+                first_bad = i
+                break
+    if first_bad is None:
+        if loaded != n:
+            return 'VIOLATION: intact header file truncated to %d of %d headers' % (loaded, n)
+        return 'ok-intact'
+    if loaded > first_bad:
+        return 'VIOLATION: header %d whose link is broken is still loaded (loaded %d of %d, checked from %d)' % (
+            first_bad, loaded, n, first)
+    if loaded < first_bad - 1:
+        return 'VIOLATION: dropped more than one header before the first broken link'
+    return 'ok-truncated'
+
+
+class SymEnv:
+    def make(self, vm, n, start, cut):
+        from symvm.sv import SBytes, Run
+        atoms = [Run('hdr%d' % i, 0, 112) for i in range(n)]
+        if cut:
+            atoms.append(Run('torn', 0, cut))
+        self.content = SBytes(atoms) if atoms else b''
+        RepairHeaders.checkpoints = {start - 1000: 'unused'}
+        return RepairHeaders('HEADERS')
+
+    def link(self, vm, i):
+        return vm.named_bool('link%d' % i)
+
+    def genesis_ok(self, vm):
+        return vm.named_bool('genesis_ok')
+
+
+class NativeEnv:
+    """Builds a real header file in which header i links to header i-1 exactly when link_i is set in the model."""
+
+    def make(self, vm, n, start, cut):
+        import tempfile
+        from lbry.crypto.hash import double_sha256
+        self.dir = tempfile.mkdtemp(prefix='vhdr-')
+        path = self.dir + '/headers'
+        prev = b'\x00' * 32
+        blob = b''
+        first_hash = None
+        for i in range(n):
+            link = i == 0 or vm.named_bool('link%d' % i)
+            field = prev if link else bytes([0xEE]) * 32
+            hdr = (1).to_bytes(4, 'little') + field + bytes([i % 251 + 1]) * 32 + bytes([7]) * 32 + (1500000000 + i).to_bytes(4, 'little') \
+                + (0x1f00ffff).to_bytes(4, 'little') + i.to_bytes(4, 'little')
+            blob += hdr
+            prev = double_sha256(hdr)
+            if i == 0:
+                first_hash = Headers.hash_header(hdr)
+        with open(path, 'wb') as f:
+            f.write(blob + b'\x55' * cut)
+        RepairHeaders.checkpoints = {start - 1000: 'unused'}
+        RepairHeaders.genesis_hash = first_hash if (n and vm.named_bool('genesis_ok')) else b'00' * 32
+        return RepairHeaders(path)
+
+    def link(self, vm, i):
+        return vm.named_bool('link%d' % i)
+
+    def genesis_ok(self, vm):
+        return vm.named_bool('genesis_ok')
+
+    def cleanup(self):
+        import shutil
+        shutil.rmtree(getattr(self, 'dir', '/nonexistent'), ignore_errors=True)
+
+
+def sym_setup(vm, job):
+    import asyncio
+    import builtins
+    import os
+    if job.get('family') != 'reopen':
+        return
+    env = SymEnv()
+    ENV[0] = env
+
+    def idx_of(b):
+        from symvm.sv import SBytes, Run
+        a = vm.norm_atoms(list(b.a)) if isinstance(b, SBytes) else None
+        if not a or len(a) != 1 or not isinstance(a[0], Run) or not a[0].rid.startswith('hdr') or a[0].off != 0:
+            from symvm.sv import Unsupported
+            raise Unsupported('header model: hash/deserialize of something that is not one whole stored header: %r' % (b,))
+        return int(a[0].rid[3:])
+    vm.models[id(Headers.hash_header)] = lambda vm_, a, k: HashTok(idx_of(a[0]))
+    vm.models[id(Headers.deserialize)] = lambda vm_, a, k: {'prev_block_hash': PrevTok(idx_of(a[1])), 'block_height': a[0],
+                                                            'version': 1, 'timestamp': 0, 'bits': 0, 'nonce': 0}
+    vm.models[id(asyncio.get_event_loop)] = lambda vm_, a, k: LoopModel()
+    vm.models[id(os.path.exists)] = lambda vm_, a, k: True
+    vm.models[id(builtins.open)] = lambda vm_, a, k: FileModel(env.content)
+
+
+class _NativeCtx:
+    def __init__(self):
+        self.env = NativeEnv()
+
+    def __enter__(self):
+        self.saved = (ENV[0], RepairHeaders.checkpoints, RepairHeaders.genesis_hash)
+        ENV[0] = self.env
+        import asyncio
+        self.loop = asyncio.new_event_loop()
+        asyncio.set_event_loop(self.loop)
+
+    def __exit__(self, *a):
+        self.env.cleanup()
+        self.loop.close()
+        ENV[0], RepairHeaders.checkpoints, RepairHeaders.genesis_hash = self.saved     # the symbolic run continues
+
+
+def native_setup(nvm, job):
+    if job.get('family') != 'reopen':
+        return None
+    ctx = _NativeCtx()
+    # open() awaits run_in_executor: drive the real coroutine on a real loop
+    nvm.await_ = lambda aw: ctx.loop.run_until_complete(aw) if hasattr(aw, '__await__') and not hasattr(aw, '__vm_await__') else aw.v
+    return ctx
+
+
 # ------------------------------------------------------------------------------------------------ runner interface
 def jobs(tier):
     out = []
@@ -150,8 +366,52 @@ def jobs(tier):
                                     timestamps='every pair of 32-bit values')))
     out.append(dict(name='retarget-edges', family='retarget', fn='retarget_edges', args=(), loop_bound=300, max_depth=40, cost=300,
                     query_timeout_ms=60000, bounds=dict(previous='None'), must_reach=('ok',)))
+    ns = [1, 2, 5, 37, 38, 40, 41, 76] if tier == 'quick' else [1, 2, 3, 4, 5, 36, 37, 38, 39, 40, 41, 42, 73, 76, 77, 112, 120]
+    for n in ns:
+        for start, cut in ((0, 0), (3, 0), (3, 57)):
+            if start >= n and not cut:
+                continue
+            out.append(dict(name=f'reopen-{n}headers-from{start}' + (f'-torn{cut}' if cut else ''), family='reopen', fn='reopen',
+                            args=(n, start, cut), loop_bound=400, max_depth=60, cost=10 * n,
+                            bounds=dict(stored_headers=n, checked_above=0 if cut else start, torn_bytes=cut,
+                                        links='one symbolic boolean per header')))
     return out
 
 
 def finding_key(job, verdict, inputs, named):
+    import re
+    verdict = re.sub(r'header \d+ whose link is broken is still loaded \(.*\)', 'header with a broken link is still loaded', verdict)
     return f'{job.get("family")}|{verdict}'
+
+
+def _const(frm, to):
+    def mutate(node):
+        import ast
+        for n in ast.walk(node):
+            if isinstance(n, ast.Constant) and n.value == frm and not isinstance(n.value, bool):
+                n.value = to
+                return True
+        return False
+    return mutate
+
+
+def _repair_tip(node):
+    """Canary: re-introduce the skipped tip (range(..., self.height + 1, ...) -> range(..., self.height, ...))."""
+    import ast
+    for n in ast.walk(node):
+        if isinstance(n, ast.For) and isinstance(n.iter, ast.Call) and getattr(n.iter.func, 'id', '') == 'range' \
+                and isinstance(n.iter.args[1], ast.BinOp):
+            n.iter.args[1] = n.iter.args[1].left
+            return True
+    return False
+
+
+CANARIES = [
+    dict(name='compact-sign-bit-test', target='lbry.wallet.util:ArithUint256._calculate_compact', mutate=_const(0x00800000, 0x00400000),
+         job=dict(family='compact', fn='compact_of_value', args=(1, 64), loop_bound=300, max_depth=40)),
+    dict(name='retarget-max-timespan', target='lbry.wallet.header:Headers.get_next_block_target', mutate=_const(2, 4),
+         job=dict(family='retarget', fn='retarget', args=(0x1d,), loop_bound=300, max_depth=40, query_timeout_ms=60000,
+                  incremental_timeout_ms=100)),
+    dict(name='repair-skips-tip', target='lbry.wallet.header:Headers.repair', mutate=_repair_tip,
+         job=dict(family='reopen', fn='reopen', args=(40, 3, 0), loop_bound=400, max_depth=60)),
+]
